@@ -17,7 +17,7 @@ before the first scanner read, retires losers only after the scan through the jo
 token before publishing a v3 record and the marker token before skipping a retired extent; the writer stamps the
 token with the landing sector. Not decided: that reopened contents are one complete recent generation per key.
 """
-DECIDED = ["the recovery parser's bounds are the writer's admission bounds (shared with C10.bounds)", 'writer and readers derive the same extent length (the token covers the padded extent; shared with C05.len)', 'the record-batch bracket journals every prepared write (shared with C02.order)', "(a) intent-journal brackets (retire_extents and process_write_batch, the latter shared with C02.order)", "(b) write layering / who-may-call",
+DECIDED = ['the retirement licence successor_is_durable_or_deleted: verdict, memo timing, and only generations the walk moved past carry the memo (shared with C02.successor)', "the recovery parser's bounds are the writer's admission bounds (shared with C10.bounds)", 'writer and readers derive the same extent length (the token covers the padded extent; shared with C05.len)', 'the record-batch bracket journals every prepared write (shared with C02.order)', "(a) intent-journal brackets (retire_extents and process_write_batch, the latter shared with C02.order)", "(b) write layering / who-may-call",
            "(c) replay-before-scan, token verification before publication, journalled post-scan retirement, token stamping",
            'fsync barriers separate intent journal, marker writes and journal clear of a retirement transaction',
            'decode_slot accepts exactly the images the layout allows (touching extents, extent ending at the device end)',
@@ -340,8 +340,17 @@ def check_bounds(ctx):
     C10.check_bounds(ctx, "C03.bounds")
 
 
+def check_successor(ctx):
+    """the last durable generation of a key may be retired only once its replacement is durable (or the key deleted): a crash
+    between the retirement and the replacement's write otherwise leaves no generation at all. Same rule as C02.successor
+    (verdict, memo timing, and - added after C03-i - which generations may carry the memo)"""
+    from rules import C02
+    C02.check_successor(ctx, "C03.successor")
+
+
 def check(ctx):
     check_bounds(ctx)
+    check_successor(ctx)
     check_extent_len(ctx)
     check_token_agreement(ctx)
     check_journal_validity(ctx)
